@@ -272,6 +272,13 @@ type MemoKeyMismatch struct {
 // bool) that are tested with a comma-ok lookup and filled by an indexed store
 // where no store key equals a lookup key.
 func MemoKeyMismatches(f *Func) []MemoKeyMismatch {
+	if ReviewedLint("memo", f) {
+		return nil
+	}
+	return memoKeyMismatches(f)
+}
+
+func memoKeyMismatches(f *Func) []MemoKeyMismatch {
 	info := f.Pkg.TypesInfo
 	type use struct {
 		lookups, stores         []ast.Expr
@@ -381,7 +388,9 @@ func MemoKeyMismatches(f *Func) []MemoKeyMismatch {
 				continue
 			}
 			for _, l := range u.lookups {
+				identInfo = info
 				d := identDiffs(s, l)
+				identInfo = nil
 				if SameExpr(info, s, l) || d == 0 || (!nearOnly[o] && sameShape(info, s, l)) {
 					match = true
 				}
@@ -749,6 +758,10 @@ func isLocalVar(o types.Object) bool {
 
 // identDiffs walks two expressions in parallel: -1 when their shapes differ,
 // otherwise the number of identifier leaves whose names differ.
+// identInfo, when set, makes identDiffs compare identifiers by the object they denote: two variables of the
+// same name in different scopes (shadowing) are different identifiers.
+var identInfo *types.Info
+
 func identDiffs(a, b ast.Expr) int {
 	a, b = Unparen(a), Unparen(b)
 	switch x := a.(type) {
@@ -758,6 +771,11 @@ func identDiffs(a, b ast.Expr) int {
 			return -1
 		}
 		if x.Name == y.Name {
+			if identInfo != nil {
+				if ox, oy := identInfo.Uses[x], identInfo.Uses[y]; ox != nil && oy != nil && ox != oy {
+					return 1
+				}
+			}
 			return 0
 		}
 		return 1
